@@ -58,7 +58,7 @@ def conservation(ev):
         vio.append(V('orphan-piece', f'{int(orphan.sum())} pieces carry a segment number outside 0..{nseg - 1}: {tags.tolist()}'))
         return vio  # pieces cannot be grouped by segment: nothing below would be meaningful
     for j, arr in enumerate(tab['iv']):
-        vals = R.VALS[p['vals']][j]
+        vals = R.integrated_values(p['vals'], j, nseg)
         lo_t = hi_t = tol_t = 0.0
         seg_bad = False
         for k, s in enumerate(segs):
